@@ -1,5 +1,6 @@
 import LenaModel.Lemmas.C04
 import LenaModel.Lemmas.C04Alone
+import LenaModel.Lemmas.C04Local
 /-! # C04 — context non-interference between `Split` branches and across accumulators
 
 The property (properties.jsonl, C04) has two sentences.
@@ -200,33 +201,12 @@ theorem branch_alone_equiv (s : Split σ S C) (hv : s.bufsize ≠ some 0) (hc : 
 
 /-! ## sentence 2: what an accumulator yields is new -/
 
-/-- every modelled accumulator except those that yield the filled values by specification -/
+/-- every modelled framework accumulator (`Sum`, `DSum`, `Count`, `Mean` with and without `sum_seq`,
+`VarianceMeanCount`, `Vectorize`, `Histogram`, `SplitIntoBins`) allocates what it yields; excluded are those
+that yield the filled values by specification -/
 theorem accOps_freshYield (ns : Nat) (k : AccKind) (hk : k ≠ .store ∧ k ≠ .keepLast ∧ k ≠ .reqStore) :
-    FreshYield (accOps ns k) ns (fun s : HSt => s.ctr) := by
-  refine ⟨?_, ?_, ?_⟩
-  · intro st s r
-    cases r with
-    | fill x => simp only [accOps, hOps, hAct, applySteps_nil]; exact accFill_ctr ns k ⟨st, s.ctr⟩ s.acc x
-    | compute => exact (accCompute_fresh ns k hk ⟨st, s.ctr⟩ s.acc).1
-    | request => exact (accCompute_fresh ns k hk ⟨st, s.ctr⟩ s.acc).1
-    | call => simp [accOps, hOps, hAct, mkSrc]
-    | run buf => simp [accOps, hOps, hAct, splitLastCount, runSteps_nil_steps]
-  · intro st s r hr
-    cases r with
-    | fill x => simp [accOps, hOps, hAct, applySteps_nil, cellsOf]
-    | compute => exact (accCompute_fresh ns k hk ⟨st, s.ctr⟩ s.acc).2.1
-    | request => exact (accCompute_fresh ns k hk ⟨st, s.ctr⟩ s.acc).2.1
-    | call => simp [Req.isAcc] at hr
-    | run buf => simp [Req.isAcc] at hr
-  · intro st s r hr
-    cases r with
-    | fill x => simp [accOps, hOps, hAct, applySteps_nil, cellsOf]
-    | compute => exact (accCompute_fresh ns k hk ⟨st, s.ctr⟩ s.acc).2.2
-    | request => exact (accCompute_fresh ns k hk ⟨st, s.ctr⟩ s.acc).2.2
-    | call => simp [Req.isAcc] at hr
-    | run buf => simp [Req.isAcc] at hr
-
-
+    FreshYield (accOps ns k) ns (fun s : HSt => s.ctr) :=
+  accOps_freshYield' ns k hk
 
 /-- **Every context yielded by an accumulator's `compute()`/`request()` is new.**  For every accumulator whose
 methods allocate what they yield (`FreshYield`; `accOps_freshYield`: all modelled framework accumulators), for
